@@ -77,7 +77,7 @@ def run_family(run, fam, cases, known_classes):
     corr = getattr(fam, "corr", None)        # optional correspondence predicate (case, impl, model_part) -> bool
     classify = getattr(fam, "classify", None)  # optional known-class refinement (case, impl, cls) -> cls
     st = {"cases": len(cases), "nontrivial": 0, "corr_mismatch": 0, "spec_fail": 0, "known": 0, "ok": True,
-          "exhaustive": fam.exhaustive, "impl_s": round(t1 - t0, 2), "model_s": round(t2 - t1, 2)}
+          "exhaustive": bool(fam.exhaustive and run.tier in getattr(fam, "exhaustive_tiers", ("quick", "thorough"))), "impl_s": round(t1 - t0, 2), "model_s": round(t2 - t1, 2)}
     seen_nt = set()
     for case, il, ml in zip(cases, impl, model):
         il = fam.normal(il if il is not None else "MISSING")
